@@ -67,6 +67,9 @@ class KeySet:
                 fh.write(data)
             self.keys.setdefault(ktype, []).append(Key(name, ktype, enc, pub))
 
+        self._make = make
+        self._seedstr = seedstr
+        self._rot = 0
         for ti, ktype in enumerate(types):
             for i in range(per_type):
                 enc = "pem" if i % 2 == 0 else "der"
@@ -78,6 +81,16 @@ class KeySet:
                 if i == 0:
                     other = types[(ti + 1) % len(types)]
                     make(name + ".x", other, enc, f"{seedstr}/{ktype}/{i}/x")
+
+    def rotate(self, r):
+        """key rotation: ONE key file gets new key material under the same name, encoding and type (what a key store
+        looks like after a roll-over); whoever signs with that name afterwards must use the new key"""
+        ktype = r.choice(sorted(self.keys))
+        idx = r.randrange(len(self.keys[ktype]))
+        old = self.keys[ktype].pop(idx)
+        self._rot += 1
+        self._make(old.name, ktype, old.enc, f"{self._seedstr}/rotated/{self._rot}")
+        return old.name
 
     def pick(self, r, alg, mismatch=False):
         ktype = ALGS[alg][1]
